@@ -6,7 +6,7 @@
    are inputs.  XFuel is the model's budget for nested forward_message calls (Python's own
    limit is its recursion limit; see C03_fuel_note). *)
 From Coq Require Import ZArith List Bool.
-From Mgr Require Import Gen.MgrDefs Model.Manager Model.Encode Proofs.RegInv Proofs.RegTop Proofs.Connect Proofs.StepInv.
+From Mgr Require Import Gen.MgrDefs Model.Manager Model.Encode Proofs.RegInv Proofs.Frame Proofs.RegTraverse Proofs.RegTop Proofs.Connect Proofs.StepInv Proofs.Fuel.
 Import ListNotations.
 Open Scope Z_scope.
 
@@ -22,6 +22,25 @@ Proof. intros cfg fuel es. pose proof (run_safe cfg fuel es) as H. destruct (run
    routing for everybody else (recipients are exactly the registered, open modules of the lists) *)
 Theorem C03_reachable_invariant : forall cfg fuel es u s, run cfg fuel es = Ok u s -> StepInv s.
 Proof. intros cfg fuel es u s H. pose proof (run_safe cfg fuel es) as R. rewrite H in R. exact R. Qed.
+
+(* How much nesting can a delivery need?  At any state satisfying the registry invariant (every reachable
+   state does) with at most n live modules (registered, socket open), forward_message with a nesting budget
+   of 2*n + 2 (2*n + 1 for a valid-destination log record / failure notice) does not crash AT ALL: every
+   re-entry either publishes a notice about a message that itself provokes no further notice, or happens
+   after one more live module has been closed.  The implementation's budget is Python's recursion limit:
+   the deep-cascade history of the check (hundreds of subscribers failing at the same instant) exhausts it -
+   that is the recorded finding crash:RecursionError:deep-cascade; nothing else can go wrong. *)
+Theorem C03_fuel_bound : forall cfg fuel X n h p s,
+  RegInvX X s -> (live s <= n)%nat -> (2 * n + rank h <= fuel)%nat ->
+  exists s', forward cfg fuel h p s = Ok tt s' /\ RegInvX X s' /\ Frame s s'.
+Proof.
+  intros cfg fuel X n h p s H Hl Hb.
+  destruct (J_NC_ok X n (forward cfg fuel h p) s (J_forward cfg fuel X h p) (NC_forward cfg fuel X n h p Hb) H Hl)
+    as ([] & s' & E & H' & F). eauto.
+Qed.
+
+Theorem C03_rank_le_2 : forall h, (1 <= rank h <= 2)%nat.
+Proof. exact rank_le. Qed.
 
 (* the worst outcome for an offender is that its own connection is removed: a frame with an invalid
    declared length is answered by removing that module only *)
